@@ -538,3 +538,26 @@ Proof.
   clear H H'. induction Hb as [|r r' l l' Hr HF IH]; constructor; [|exact IH].
   intros c Hc. exact (perm_by_name h h' pi r r' c s s' Hnd Hperm Hh' Hr Hc Hs Hs').
 Qed.
+
+(* ---------------------------------------------------------------- binding calls: the last one wins *)
+Lemma binding_last_schema bs s src :
+  read_after (bs ++ [SetSchema s]) src = row_iter NoLoader (Some s) src.
+Proof. unfold read_after, bind_all. rewrite fold_left_app. reflexivity. Qed.
+
+Lemma binding_last_loader bs l src :
+  exists pre, read_after (bs ++ [SetLoader l]) src = row_iter l pre src.
+Proof. unfold read_after, bind_all. rewrite fold_left_app. simpl. eexists. reflexivity. Qed.
+
+Lemma binding_last_wins :
+  (forall bs s (data : sheet),
+     read_after (bs ++ [SetSchema s]) data = row_iter NoLoader (Some s) data
+     /\ read_after (bs ++ [SetSchema s]) data = Ok (Some s, data))
+  /\ (forall bs (sh : sheet),
+       (exists pre, read_after (bs ++ [SetLoader HeadingRow]) sh = row_iter HeadingRow pre sh)
+       /\ (exists os, read_after (bs ++ [SetLoader HeadingRow]) sh = Ok (os, data_rows sh))).
+Proof.
+  split.
+  - intros bs s data. rewrite binding_last_schema. split; [reflexivity|apply rows_noloader].
+  - intros bs sh. destruct (binding_last_loader bs HeadingRow sh) as [pre H].
+    split; [exists pre; exact H|]. rewrite H. apply rows_tl.
+Qed.
